@@ -123,6 +123,15 @@ func main() {
 			fee.RequiredFee(uint64(i*1000+g), 10)
 		})
 	case "hd": // C16
+		// one reloaded extended public key shared by all goroutines (a wallet's account xpub): concurrent child derivations
+		shared, err := bip32.DeserializeEncodedPublicKey("xpub661MyMwAqRbcFtXgS5sYJABqqG9YLmC4Q1Rdap9gSE8NqtwybGhePY2gZ29ESFjqJoCu1Rupje8YtGqsefD265TMg7usUDFdp6W1EGMcet8")
+		if err == nil {
+			cl := shared.Clone()
+			par(200, func(g, i int) {
+				shared.NewPublicChildKey(uint32(g*1000 + i)) //nolint:errcheck
+				cl.NewPublicChildKey(uint32(g*1000 + i))     //nolint:errcheck
+			})
+		}
 		par(12, func(g, i int) {
 			ent, _ := bip39.NewEntropy(128)
 			_ = ent
